@@ -4,6 +4,7 @@ use crate::{
     container::Container,
     object::{Object, RTObject},
     path::Path,
+    story_error::StoryError,
 };
 
 pub struct VariableReference {
@@ -29,13 +30,20 @@ impl VariableReference {
         }
     }
 
-    pub fn get_container_for_count(self: &Rc<Self>) -> Result<Rc<Container>, String> {
+    pub fn get_container_for_count(self: &Rc<Self>) -> Result<Rc<Container>, StoryError> {
         if let Some(path) = &self.path_for_count {
-            Ok(Object::resolve_path(self.clone(), path)
+            Object::resolve_path(self.clone(), path)
                 .container()
-                .unwrap())
+                .ok_or_else(|| {
+                    StoryError::InvalidStoryState(format!(
+                        "Failed to find container for read count at {}",
+                        path
+                    ))
+                })
         } else {
-            Err("Path for count is not set.".to_owned())
+            Err(StoryError::InvalidStoryState(
+                "Path for count is not set.".to_owned(),
+            ))
         }
     }
 
